@@ -300,6 +300,9 @@ func runC15(w *World, r *Report) {
 		}
 	}
 
+	// a vertex the ledger rejects leaves no reservation behind (the ledger side of "a rejected request changes nothing")
+	rollbackReservation(w, r, "rejected-admission-leaves-no-index-entry")
+
 	// validate before mutate
 	r.rule("validate-before-mutate", "in every handler (and the helpers it calls directly) no signature / challenge / shape validation is reachable after a call with ledger, awaiting-cache or peer-table effects", 8)
 	effect := func(in ssa.Instruction) string {
